@@ -16,6 +16,8 @@ sub <k> <j> <0|1>                       P_k(conf, nc).get_sub_palette(P_j) (k de
 get <id>                                conf.get_color(id)                            -> ok <prefix>
 ids                                     sorted ids with R(esolved)/U(nresolved)       -> ok id:R;…
 rep                                     conf.make_report(): per id status and colour  -> ok id:R:prefix;id:U:-;…
+gpal                                    conf.get_palette(), the result is kept as #n  -> ok a=prefix;…
+gread <n> <id>                          kept palette #n: its accessors and palette[id] -> ok a=prefix;…|prefix
 glob                                    set_global_colors_config(conf)                -> ok | err E
 syn <k>                                 P_k(synced=True) (conf must be the global one) -> ok a=prefix;… | err E
 sget <k>                                accessor attributes of that synced palette now -> ok a=prefix;…
@@ -32,6 +34,7 @@ structure DrvState where
   dead : Bool
   classes : List ClassDef
   compound : List Nat := []   -- classes derived from `CompoundPalette` (they cannot be synced)
+  kept : List (Nat × Snap) := []   -- kept results of `get_palette()`: configuration index, accessors as built
 
 def cpsOfChars (cs : List Char) : Option Str :=
   if cs = ['-'] then some [] else
@@ -133,7 +136,7 @@ def doOp (st : DrvState) (w : MWorld) (op : MOp) : DrvState × String :=
 
 def handle (st : DrvState) (line : String) : DrvState × String :=
   match splitWs line with
-  | ["reset"] => (⟨⟨[], [], none, []⟩, 0, false, [], []⟩, "ok")
+  | ["reset"] => (⟨⟨[], [], none, []⟩, 0, false, [], [], []⟩, "ok")
   | "cls" :: k :: ps :: accs :: cfg =>
     -- `k` or `k@<name>`: the Python name of the class (no meaning in the model: a class is its index)
     -- a `+` after the index: the class derives from `CompoundPalette` (with an empty `SUB_PALETTES_MAP`)
@@ -204,6 +207,19 @@ def handle (st : DrvState) (line : String) : DrvState × String :=
       match w.confs[st.cur]? with
       | some c => (st, showReport c.map)
       | none => (st, "bad-op")
+    | "gpal", [] =>
+      match w.confs[st.cur]? with
+      | some c =>
+        let s := globalPaletteOf c
+        ({ st with kept := st.kept ++ [(st.cur, s)] }, showSnap s)
+      | none => (st, "bad-op")
+    | "gread", [h, id] =>
+      match h.toNat?.bind (st.kept[·]?), cpsOf id with
+      | some (i, s), some id =>
+        match keptItem w i id with
+        | some f => (st, showSnap s ++ "|" ++ showCps f)
+        | none => (st, "bad-op")
+      | _, _ => (st, "bad-op")
     | "glob", [] =>
       match w.confs[st.cur]? with
       | some _ => doOp st w (.setGlobal st.cur)
@@ -224,4 +240,4 @@ def handle (st : DrvState) (line : String) : DrvState × String :=
     | _, _ => (st, "bad-op")
   | [] => (st, "bad-op")
 
-def main : IO Unit := runS handle (⟨⟨[], [], none, []⟩, 0, false, [], []⟩ : DrvState)
+def main : IO Unit := runS handle (⟨⟨[], [], none, []⟩, 0, false, [], [], []⟩ : DrvState)
